@@ -92,6 +92,7 @@ class Kernel:
         self.line_hook = None  # optional callable(rec, frame) for at(k) sweeps / probes
         self.max_threads = 1
         self.thread_excs = []
+        self.late = 1  # ticks by which every timed wait overshoots its deadline
         pk = self.policy.get("kind")
         if pk == "pct":
             self._pct_points = sorted(self.rng.randrange(1, max(2, self.policy.get("len", 3000)))
@@ -212,8 +213,10 @@ class Kernel:
             nt = self.heap[0][0] if self.heap else None
             for t in self.threads:
                 if t.state == BLOCKED and t.deadline is not None:
-                    if nt is None or t.deadline < nt:
-                        nt = t.deadline
+                    # a timed wait never ends early and always ends a little late (scheduling latency):
+                    # this keeps runs off the knife edge where a timer fires at exactly the instant compared with
+                    if nt is None or t.deadline + self.late < nt:
+                        nt = t.deadline + self.late
             if nt is None:
                 self._abort("deadlock")
                 nxt = self.main
